@@ -328,8 +328,10 @@ impl<T> Drop for Vec<T> {
         for (i, bucket) in self.buckets.iter_mut().enumerate() {
             let entries = *bucket.entries.get_mut();
 
+            // buckets are not necessarily allocated in order: the next bucket is allocated
+            // eagerly and `extend` with a misreporting iterator can skip buckets entirely
             if entries.is_null() {
-                break;
+                continue;
             }
 
             let len = Location::bucket_len(i as u32);
